@@ -347,6 +347,7 @@ fn main() {
         mutex_fields: BTreeSet::new(),
         drop_types: BTreeSet::new(),
         backparam_fns: BTreeMap::new(),
+        mutref_params: BTreeMap::new(),
         ghost_structs: BTreeMap::new(),
         dropped_fields: BTreeMap::new(),
         unit_fns: BTreeSet::new(),
@@ -446,6 +447,22 @@ fn main() {
             }
         }
         t.unit_fns.insert(fs.path.clone());
+        // parameters retyped to `&mut T`
+        {
+            let mut pos = vec![];
+            for (i, inp) in ff.sig.inputs.iter().filter(|a| matches!(a, FnArg::Typed(_))).enumerate() {
+                if let FnArg::Typed(pt) = inp {
+                    if let Pat::Ident(pi) = &*pt.pat {
+                        if fs.retype.iter().any(|(n, t)| pi.ident == n && t.trim_start().starts_with("&mut")) {
+                            pos.push(i);
+                        }
+                    }
+                }
+            }
+            if !pos.is_empty() {
+                t.mutref_params.insert(name.clone(), pos);
+            }
+        }
         found_fns.push((ff, fs));
     }
     // which fns of back-reference types take the pool explicitly
